@@ -204,7 +204,7 @@ impl Buffer {
         // If there is no space even for entry header, skip
         if buf.len() < EntryHeader::serialized_len() {
             #[cfg(foyer_verif)]
-            foyer_common::verif::event("shed", hash, 1);
+            foyer_common::verif::event("shed", hash, 1 | ((sequence + 1) << 8));
             return false;
         }
 
@@ -221,7 +221,7 @@ impl Buffer {
                 foyer_common::verif::event(
                     "shed",
                     hash,
-                    if e.kind() == ErrorKind::BufferSizeLimit { 2 } else { 4 },
+                    (if e.kind() == ErrorKind::BufferSizeLimit { 2 } else { 4 }) | ((sequence + 1) << 8),
                 );
                 return false;
             }
@@ -249,7 +249,7 @@ impl Buffer {
 
         if aligned > self.max_entry_size {
             #[cfg(foyer_verif)]
-            foyer_common::verif::event("shed", hash, 3);
+            foyer_common::verif::event("shed", hash, 3 | ((sequence + 1) << 8));
             return false;
         }
 
